@@ -120,6 +120,40 @@ def construct_stream(thorough):
     return ex
 
 
+def construct_asts():
+    """structured node-set ASTs (for the spelling and ordering checks): inner `//` followed by a positional
+    predicate, every axis as the single step behind a one-node filter expression or inside a predicate"""
+    DOS = ("descendant-or-self", ("node",), [])
+    preds = [("num", "1"), ("num", "2"), ("call", "last", []), ("bin", "<", ("call", "position", []), ("num", "2")),
+             ("bin", "=", ("call", "position", []), ("call", "last", []))]
+    tests = [("name", "a"), ("name", "b"), ("name", "p"), ("name", "s"), ("*",), ("node",), ("text",)]
+    out = []
+    for t in tests:
+        for pr in preds:
+            st = ("child", t, [pr])
+            out.append(("path", None, False, [("child", ("name", "r"), []), DOS, st]))
+            out.append(("path", None, True, [("child", ("name", "r"), []), DOS, st]))
+            out.append(("path", None, True, [DOS, ("child", ("name", "s"), []), DOS, st]))
+            out.append(("path", None, True, [("child", ("name", "r"), []), ("child", ("*",), []), DOS, st]))
+            out.append(("path", ("filter", ("path", None, True, [DOS, ("child", ("name", "a"), [])]), [("num", "1")]), False, [DOS, st]))
+            out.append(("path", None, True, [DOS, ("child", ("name", "a"), []), DOS, st, ("parent", ("node",), [])]))
+    for ax in G.AXES:
+        for t in (("*",), ("node",)):
+            for start in ("b", "a", "p", "s"):
+                for k in ("1", "2", "3"):
+                    one = ("filter", ("path", None, True, [DOS, ("child", ("name", start), [])]), [("num", k)])
+                    out.append(("path", one, False, [(ax, t, [])]))
+                    out.append(("path", one, False, [(ax, t, [("num", "1")])]))
+                    out.append(("filter", ("path", one, False, [(ax, t, [])]), [("num", "1")]))
+                # relative path inside a predicate: one context node per evaluation
+                out.append(("path", None, True, [DOS, ("child", ("name", start),
+                                                       [("bin", "=", ("call", "name", [("filter", ("path", None, False, [(ax, t, [])]),
+                                                                                        [("num", "1")])]), ("lit", "a"))])]))
+                out.append(("path", None, True, [DOS, ("child", ("name", start),
+                                                       [("bin", "=", ("call", "name", [("path", None, False, [(ax, t, [])])]), ("lit", "r"))])]))
+    return out
+
+
 def _before(k1, k2):
     """document order on path keys; the relative order of the attributes of ONE element is implementation-dependent
     (XPath 1.0 section 5): there only distinctness is required"""
@@ -147,7 +181,7 @@ def run_c05(chk):
             d = dg.document()
         cases.append((d, G.render_doc(d), [("lit", q) for q in DEFQ]))
         qs.append((G.render_doc(d), XP.BINDINGS, DEFQ))
-    cex = construct_stream(thorough)
+    cex = construct_stream(thorough) + [_spell(rng, a, abbrev=True) for a in construct_asts()]
     for cd in CONSTRUCT_DOCS:
         for i in range(0, len(cex), 40):
             cases.append(({"root": ("E", "r", {}, [], []), "heads": [], "tails": [], "dtd": None}, cd, [("lit", q) for q in cex[i:i + 40]]))
@@ -255,6 +289,17 @@ def run_c06(chk):
             k = rng.random()
             s = s[:i] + (rng.choice(GARBAGE) if k < 0.5 else "") + s[i + (1 if k > 0.25 else 0):]
         streams.append(("mutant", s))
+    # every core function and operator over a pool of extreme arguments (NaN, infinities, negative and huge numbers,
+    # empty / non-ASCII strings, every arity 0..5): no call may panic
+    from props import c09
+    pool = c09.build(False, rng)
+    if not thorough:
+        keep = [x for x in pool if x[0] in ("arity", "unary", "substring", "examples", "translate")]
+        rest = [x for x in pool if x[0] not in ("arity", "unary", "substring", "examples", "translate")]
+        rng.shuffle(rest)
+        pool = keep + rest[:1500]
+    for kind, e in pool:
+        streams.append(("hostile-args", e))
     fams = xp_families()
     sizes = [0, 1, 2, 3, 6, 12, 24] + ([48] if thorough else [])
     for name, f in fams.items():
@@ -314,7 +359,7 @@ def run_c06(chk):
     chk.cov["disagreements_checked"] = len(tdis)
     chk.cov["rule"] = ("expression strings from four streams (valid from the typed generator, grammatical-but-unsupported or "
                        "ill-typed, garbage over an XPath token alphabet, single-character mutants of valid ones) and %d families "
-                       "at sizes %s, each against generated documents, evaluated by the real query() in a worker process; "
+                       "at sizes %s, every core function / operator over a pool of extreme arguments at every arity, each against generated documents, evaluated by the real query() in a worker process; "
                        "panic / abort / timeout are outcomes; growth ratio time(2n)/time(n); tie: same outcome class (ok or error "
                        "class) from the model" % (len(fams), sizes))
     for t, w, e, x in bad[:4]:
@@ -356,6 +401,33 @@ def run_c07(chk):
     findings = {f["id"]: f for f in lib.load_findings("C07") if f["kind"] == "known"}
     mfail, tdis = [], []
     sizes = {"empty": 0, "one": 0, "many": 0}
+    # structured stream: every axis as the single step behind a one-node filter or inside a predicate, inner `//` with
+    # positional predicates; the same ordering monitor, and A | A = A as ordered lists
+    cex = [_spell(rng, a, abbrev=True) for a in construct_asts() if "namespace::" not in _spell(rng, a, abbrev=True)]
+    cq = []
+    for cd in CONSTRUCT_DOCS:
+        for i in range(0, len(cex), 30):
+            part = cex[i:i + 30]
+            cq.append((cd, XP.BINDINGS, part + ["(%s)|(%s)" % (e, e) for e in part]))
+    cimpl, cmodel = XP.run_queries("qfresh", cq, quirks="r")
+    for (t, b, es), a, m in zip(cq, cimpl, cmodel):
+        fa, raw, _ = _fields(a, len(es))
+        fm, _, _ = _fields(m, len(es))
+        half = len(es) // 2
+        for j, (e, r, s_, y) in enumerate(zip(es, raw, fa, fm)):
+            items = XP.node_items(r)
+            chk.count([t, e], nontrivial=len(items) >= 2)
+            if r.startswith("N:"):
+                orders = [o for _, o, _ in items]
+                keys = [XP.path_key(p) for p, _, _ in items]
+                if any(x >= y2 for x, y2 in zip(orders, orders[1:])) or any(not _before(x, y2) for x, y2 in zip(keys, keys[1:])):
+                    mfail.append((t, e, "not in document order / duplicate node", r))
+                    continue
+            if j < half and fa[j + half] != s_ and s_.startswith("N:"):
+                mfail.append((t, "(%s)|(%s)" % (e, e), "A|A differs from A", fa[j + half] + " / " + s_))
+            elif s_ != y:
+                tdis.append((t, e, s_, y))
+    chk.cov["structured_stream"] = "%d expressions x %d documents" % (2 * len(cex), len(CONSTRUCT_DOCS))
 
     def bits(field):
         return int(field[2:], 16) if field.startswith("n:") else None
@@ -448,6 +520,10 @@ def run_c08(chk):
              ("1 | 2", "e"), ("count(//a | //b) + 1", "n"), ("-count(//a)|//b", "e"), ("1 - 2 + 3", "n"), ("2 = 2 != false()", "b"),
              ("text()", "N"), ("node()", "N"), ("comment()", "N"), ("processing-instruction()", "N"), ("count(text())", "n"),
              ("a | text()", "N"), ("*/text()", "N"), ("//text()[1]", "N"), ("(text())", "N")]
+    casts = construct_asts()
+    for cd in CONSTRUCT_DOCS:
+        for i in range(0, len(casts), 8):
+            cases.append((None, cd, casts[i:i + 8]))
     qs, meta = [], []
     for d, t, asts in cases:
         es = []
@@ -515,7 +591,7 @@ def rename_doc(text, mapping):
     def sub(m):
         return m.group(1) + mapping.get(m.group(2), m.group(2)) + ":"
     out = re.sub(r"(<|</|\s)(p|q|z):", sub, text)
-    out = re.sub(r"xmlns:(p|q|z)=", lambda m: "xmlns:" + mapping.get(m.group(1), m.group(1)) + "=", out)
+    out = re.sub(r"xmlns:(p|q|z)(=| CDATA)", lambda m: "xmlns:" + mapping.get(m.group(1), m.group(1)) + m.group(2), out)
     return out
 
 
@@ -526,15 +602,20 @@ def run_c10(chk):
     pr = X.standard_proof(chk, "C10", thorough)
     ndocs = 500 if thorough else 120
     eg = G.ExprGen(rng)
-    qs, qs_rd, qs_re = [], [], []
+    qs, qs_rd, qs_re, qs_rb = [], [], [], []
     docs = []
     for _ in range(ndocs):
-        d = G.DocGen(rng, dtd=False).document()
-        t = G.render_doc(d)
+        d = G.DocGen(rng, dtd=True).document()
+        # declarations supplied by attribute-list defaults are wanted here; entity references are not
+        d["dtd"] = None if d["dtd"] is None or "ATTLIST" not in d["dtd"] else d["dtd"]
+        t = G.render_doc(d).replace("&e1;", "t")
         docs.append(d)
         extra = [_spell(rng, eg.nodeset(0)) for _ in range(4)]
         es = NS_BATTERY + extra
         qs.append((t, XP.BINDINGS, es + NAME_BATTERY))
+        # the same final bindings reached through a history of re-bindings of the same prefixes
+        qs_rb.append((t, rng.choice(["p=urn:u2;q=urn:u1;p=urn:u1;q=urn:u2", "p=urn:zz;p=urn:u1;q=urn:u2", "q=urn:u1;p=urn:u1;q=urn:u2",
+                                     "p=urn:u1;q=urn:u2;p=urn:u1"]), es))
         # renaming the document's prefixes: p->pp, q->qq, z->w (name() excluded: it shows the prefix)
         qs_rd.append((rename_doc(t, {"p": "pp", "q": "qq", "z": "w"}), XP.BINDINGS, es))
         # renaming the expression's prefixes together with the caller's bindings
@@ -543,12 +624,13 @@ def run_c10(chk):
     impl, model = XP.run_queries("qfresh", qs, quirks="r")
     impl_rd = lib.run_lines(lib.build_harness(), [lib.req("qfresh", t, b, *es) for t, b, es in qs_rd], timeout=900, per_line_resume=True)
     impl_re = lib.run_lines(lib.build_harness(), [lib.req("qfresh", t, b, *es) for t, b, es in qs_re], timeout=900, per_line_resume=True)
+    impl_rb = lib.run_lines(lib.build_harness(), [lib.req("qfresh", t, b, *es) for t, b, es in qs_rb], timeout=900, per_line_resume=True)
     spec = lib.run_lines(lib.model_driver(), [lib.req("queryq", "", t, b, *es) for t, b, es in qs], timeout=900)
     findings = {f["id"]: f for f in lib.load_findings("C10") if f["kind"] == "known"}
     mfail, tdis = [], []
     dfeats = {}
     nb = len(NS_BATTERY) + 4
-    for d, (t, b, es), a, m, s, ard, are in zip(docs, qs, impl, model, spec, impl_rd, impl_re):
+    for d, (t, b, es), a, m, s, ard, are, arb in zip(docs, qs, impl, model, spec, impl_rd, impl_re, impl_rb):
         for f in G.doc_features(d):
             dfeats[f] = dfeats.get(f, 0) + 1
         fa, _, _ = _fields(a, len(es))
@@ -556,6 +638,7 @@ def run_c10(chk):
         fs, _, _ = _fields(s, len(es))
         frd, _, _ = _fields(ard, nb)
         fre, _, _ = _fields(are, nb)
+        frb, _, _ = _fields(arb, nb)
         for i, (e, x, y, z) in enumerate(zip(es, fa, fs, fm)):
             nontriv = not x.startswith("err") and x not in ("N:[]", "n:0000000000000000", "s:", "b:0")
             chk.count([t, e], nontrivial=nontriv)
@@ -572,12 +655,16 @@ def run_c10(chk):
                 if fre[i] != x:
                     mfail.append((t, e, "result changes when the expression's prefixes and the caller's bindings are renamed consistently",
                                   x + "  /  " + fre[i]))
+                if frb[i] != x:
+                    mfail.append((t, e, "result depends on how the caller's bindings were reached (a prefix bound twice: the later "
+                                  "binding must take the place of the earlier one)", x + "  /  " + frb[i]))
     chk.cov["document_features"] = dict(sorted(dfeats.items()))
     chk.cov["disagreements_checked"] = len(tdis)
     chk.cov["rule"] = ("%d generated documents with random declaration layouts (shadowing, re-declaration, default namespace, xmlns=\"\", "
                        "prefixed and unprefixed attributes, xml:lang) x a battery of %d name tests / namespace-uri / local-name / name "
                        "queries + 4 generated paths, caller bindings p,q; oracle: the model; metamorphic: the same queries after "
-                       "renaming the document's prefixes, and after renaming the expression's prefixes together with the bindings; "
+                       "renaming the document's prefixes, after renaming the expression's prefixes together with the bindings, and with "
+                       "the same bindings reached through re-binding a prefix; declarations supplied by ATTLIST defaults included; "
                        "non-trivial = a non-empty, non-zero, non-error result" % (ndocs, len(NS_BATTERY) + len(NAME_BATTERY)))
     for t, e, why, r in mfail[:4]:
         chk.violation("ns_%s" % lib.enc(e)[:60],
@@ -650,13 +737,43 @@ def run_c19(chk):
     for t, x, y in zip(texts + texts, p1, p2):
         if x != y:
             mfail.append((t, "parse / print twice", "parsing the same text twice gives different documents", x[:200] + " / " + y[:200]))
+    # documents EDITED through the DOM (adjacent and empty text nodes, detached trees, moved subtrees: states the parser
+    # never produces): after every step a battery of queries is evaluated on the live document and the full snapshot of
+    # the tree (shape, node identities, segmentation of character data, detached trees) must be what it was before
+    from gen import domgen as D
+    from props import domchecks as DC
+    hist = []
+    for _ in range(300 if thorough else 80):
+        hh = D.Hist(rng, max_ops=10, hostile=0.1)
+        t, ops = hh.history()
+        # make adjacent text nodes likely: split and append text
+        extra = []
+        for _ in range(rng.randint(1, 3)):
+            extra.append(rng.choice(["st:h%d:1" % hh.pick(("text",)), "ct:x", "ap:h%d:h%d" % (hh.pick(("elem",)), len(hh.shadow) - 1)]))
+            if extra[-1].startswith("st") or extra[-1].startswith("ct"):
+                hh.shadow.append("text")
+        hist.append((t, ops + extra))
+    himpl = lib.run_lines(h, [lib.req("dom", t, DC.QUERIES + ";string(/*);//text();count(//text())", *ops) for t, ops in hist],
+                          timeout=900, per_line_resume=True)
+    edited_states = 0
+    for (t, ops), a in zip(hist, himpl):
+        for i, rec in enumerate(D.split_records(a)):
+            edited_states += 1
+            chk.count([t] + ops[:i], nontrivial=i > 0)
+            q = rec["flags"].get("q", "")
+            if "SIDE-EFFECT" in q:
+                mfail.append((t, "dom history: " + " ".join(ops[:i]), "evaluating queries changed the (edited) document", q[:600]))
+                break
+    chk.cov["edited_document_states_queried"] = edited_states
     chk.cov["sequences_with_a_failing_query"] = with_failure
     chk.cov["disagreements_checked"] = len(tdis)
     chk.cov["rule"] = ("%d documents x sequences of 3-9 queries (generated expressions, probes of position()/last(), and queries failing "
                        "at top level or inside predicates: unknown function, variable, wrong type, unbound prefix, syntax error) issued "
                        "on ONE document and ONE evaluation context vs each on a fresh parse with a fresh context; serialization before "
-                       "and after; every text parsed and printed twice; tie: the model's answers; non-trivial = the sequence contains "
-                       "a failing query before its end" % ndocs)
+                       "and after; every text parsed and printed twice; %d DOM edit histories (split / adjacent / empty text nodes, moved "
+                       "and detached subtrees) with a query battery after every step: full tree snapshot with node identities before "
+                       "= after; tie: the model's answers; non-trivial = the sequence contains "
+                       "a failing query before its end" % (ndocs, len(hist)))
     for t, e, why, r in mfail[:4]:
         chk.violation("state_%s" % lib.enc(e)[-60:],
                       "property C19: %s\nqueries: %s\ndocument (percent-encoded): %s\nresults: %s\n" % (why, e, lib.enc(t), r[:800]))
